@@ -123,7 +123,8 @@ pub fn refine(prop: &'static str, case: &MCase, stats: &mut Stats, values: bool,
 					dead_v[i.min(3)] = true;
 				}
 			}
-		} else {
+		}
+		if signals {
 			let nv = o.w[0] as usize;
 			for (i, want) in rs.iter().enumerate() {
 				if dead_s[i.min(3)] {
